@@ -42,6 +42,7 @@ import (
 	"time"
 
 	red "github.com/redis/go-redis/v9"
+	"github.com/zeromicro/go-zero/core/breaker"
 
 	"verifharness/kit"
 )
@@ -102,6 +103,16 @@ func (r *seqRun) foreignKeyOp(i int, rel bool, typ string) {
 	if err != nil {
 		r.resync()
 		var reply red.Error
+		if errors.Is(err, breaker.ErrServiceUnavailable) && r.s.dirty {
+			// the client's breaker, opened by the error replies before: nothing was sent
+			r.c.Obs("ops_rejected_by_client_breaker", 1)
+			if ok {
+				r.viol("C19/error/success-reported-with-error", fmt.Sprintf("%s by instance %d returned (true, %v)", opname, i, err))
+			} else if !untouched {
+				r.viol("C19/error/store-corrupted-after-failed-"+opname, fmt.Sprintf("%s by instance %d was rejected by the client's breaker and the %s at the key changed", opname, i, typ))
+			}
+			return
+		}
 		if !errors.As(err, &reply) {
 			r.inconclusive(fmt.Sprintf("%s by instance %d on a key holding a %s: infrastructure error %v", opname, i, typ, err))
 			return
@@ -173,6 +184,17 @@ func seqFaults(c *kit.Case) {
 		s = flakySrv
 	}
 	r := newSeqRun(c, s, 3)
+	// class of the failing input in violation keys (the wrong-type kinds name theirs themselves)
+	switch kind {
+	case fkErrReply, fkLoading, fkInnerGet, fkInnerSet, fkInnerDel, fkClosed:
+		r.keyClass = "/history-with-store-error"
+	case fkCxCancelledBefore, fkCxDeadlineBefore, fkCxCancelAtClient, fkCxCancelInFlight, fkCxDeadlineInFlight:
+		r.keyClass = "/history-with-done-context"
+	case fkOddReply, fkNilSwallowed:
+		r.keyClass = "/history-with-odd-reply"
+	case fkNegativeSeconds:
+		r.keyClass = "/history-with-negative-seconds"
+	}
 	p := g.Perm(3)
 	a, b, d := p[0], p[1], p[2]
 	step := func(f func()) {
